@@ -2,6 +2,8 @@
    harness/h_primes.cpp. -/
 import Driver.Common
 import GivaroModel.Model.Primes
+import GivaroModel.Model.PrimesPower
+import GivaroModel.Model.PrimesFactor
 import GivaroModel.Spec.PrimesSpec
 -- @driver-mode primes Driver.Primes.primesLine
 namespace Driver.Primes
@@ -32,6 +34,11 @@ def replayPf (fs : List (Nat × Nat)) (m : Nat) : Nat :=
   | some pe => pe.1
   | none => 1
 
+/-- divide `p` out of `m` completely -/
+def stripAll (p : Nat) : Nat → Nat → Nat
+  | 0, m => m
+  | fuel+1, m => if m % p == 0 && m != 0 then stripAll p fuel (m / p) else m
+
 def primesLine (line : String) : String :=
   match splitLine line with
   | none => "BAD empty"
@@ -61,8 +68,24 @@ def primesLine (line : String) : String :=
         -- model: the deterministic cascades; Pollard's output is an oracle, replayed from the implementation
         let m := factor (fun _ => f) n
         primesVerdict line (chkFactor n f) (m == f) (hexInt m)
-      | "iffactorprime", [n], [f] => primesVerdict line (chkPrimeFactor n f) true "-"
-      | "primefactor", [n], [f] => primesVerdict line (chkPrimeFactor n f) true "-"
+      | "iffactorprime", [n], [f] =>
+        -- model: guards, cascades and the `while (!isprime(r))` descent of Model/PrimesFactor.lean; the answers of the rho / ECM
+        -- searches are not observable from outside: the model is run with oracles answering the implementation's result
+        let m := iffactorprime ispD (fun _ _ => f) (fun _ => f) (n.toNat + 2) n
+        primesVerdict line (chkPrimeFactor n f) (m == some f) (showOpt m)
+      | "primefactor", [n], [f] =>
+        let m := primefactor ispD (fun _ _ _ => f) (fun _ => f) 3 n
+        primesVerdict line (chkPrimeFactor n f) (m == some f) (showOpt m)
+      | "set1", [n], k :: rest =>
+        -- set(Lf, n): the distinct prime factors (no exponents); model replayed with the implementation's own primes
+        let ps := rest.map Int.toNat
+        -- (when no listed prime divides the cofactor the replayed oracle answers the cofactor itself: the model then ends, and differs)
+        let m := set1 (fun x => match ps.find? (fun q => decide (2 ≤ q) && x % q == 0) with | some q => q | none => x) n
+        if ps.length != k.toNat then "BAD set1 | " ++ line else
+        if n == 0 then "PRE" else
+        let cof := ps.foldl (fun m p => if p < 2 then m else stripAll p (Nat.log2 m + 1) m) n.natAbs
+        primesVerdict line (ps.all primeN && distinct ps && ps.all (fun p => n.natAbs % p == 0) && cof == 1) (m == some ps)
+          (match m with | some l => String.intercalate " " (l.map hexNat) | none => "fuel")
       | "set", [n], c :: k :: rest =>
         let fs := pairs rest
         if fs.length != k.toNat || rest.length != 2 * k.toNat then "BAD set | " ++ line else
@@ -70,6 +93,23 @@ def primesLine (line : String) : String :=
         let specOk := chkFactorisation n fs && c == 1
         let m := set (replayPf fs) n
         let modelOk := m == some (fs, c != 0)
+        primesVerdict line specOk modelOk (match m with | some (l, b) => s!"{b} {showPairs l}" | none => "fuel")
+      | "setl", [n, loops], c :: k :: rest =>
+        -- set(Lf, Lo, n, loops) with a bound on Pollard's loops: the partial contract of `set_partial`
+        let fs := pairs rest
+        if fs.length != k.toNat || rest.length != 2 * k.toNat || loops ≤ 0 then "BAD setl | " ++ line else
+        if n == 0 then (if fs.isEmpty then "OK" else primesVerdict line false true "-") else
+        let complete := c != 0
+        let specOk := fs.all (fun pe => decide (2 ≤ pe.1 ∧ 1 ≤ pe.2)) && distinct (fs.map (·.1)) && prodPow fs == n.natAbs &&
+          (!complete || fs.all (fun pe => primeN pe.1)) &&
+          -- an incomplete factorisation ends with the unfactored cofactor; everything before it is prime
+          (complete || ((fs.dropLast).all (fun pe => primeN pe.1) && !fs.isEmpty))
+        let pfR (m : Nat) : Nat :=
+          match fs.find? (fun pe => pe.1 ≠ 0 && m % pe.1 == 0) with
+          | some pe => if !complete && pe.1 == m then 1 else pe.1
+          | none => 1
+        let m := set pfR n
+        let modelOk := m == some (fs, complete)
         primesVerdict line specOk modelOk (match m with | some (l, b) => s!"{b} {showPairs l}" | none => "fuel")
       | "divisors", [n], k :: rest =>
         let fl := rest.take (2 * k.toNat)
@@ -91,7 +131,7 @@ def primesLine (line : String) : String :=
           | _ => "BAD divisors | " ++ line
         | _ => "BAD divisors | " ++ line
       | "isprimepower", [n], [e, q] =>
-        let m := isprimepower ispD n
+        let m := isprimepower ispD Givaro.Model.Primes.iroot n
         let specOk := decide (0 ≤ e) && (e == 0 || decide (0 < q)) && chkPrimePower n e.toNat q.toNat
         let modelOk := (m.1 : Int) == e && (e == 0 || (m.2 : Int) == q)
         primesVerdict line specOk modelOk s!"{hexNat m.1} {hexNat m.2}"
